@@ -3,15 +3,15 @@ EXTENDS Launcher
 Sc(n, root, devfail, pt, gr) == [n |-> n, root |-> root, devfail |-> devfail, pt |-> pt, gr |-> gr]
 \* no faults injected by the scenario itself
 CleanScn == {Sc(1, FALSE, 0, 3, 2), Sc(2, FALSE, 0, 3, 2), Sc(1, TRUE, 0, 2, 2), Sc(2, TRUE, 0, 2, 2)}
-Clean3Scn == CleanScn \cup {Sc(3, FALSE, 0, 2, 1)}
+Clean3Scn == CleanScn \cup {Sc(3, FALSE, 0, 3, 2)}
 \* a telemetry device of node 1 or 2 raises in detach_from_node(running=True)
 FaultScn == {Sc(2, FALSE, 1, 2, 1), Sc(2, FALSE, 2, 2, 2), Sc(1, FALSE, 1, 2, 2)}
 HostileScn == {Sc(1, FALSE, 0, 3, 2), Sc(2, FALSE, 0, 2, 2), Sc(1, TRUE, 0, 2, 2)} \cup FaultScn
 One == {Sc(1, FALSE, 0, 2, 2)}
 Two == {Sc(2, FALSE, 0, 1, 1)}
 TwoFault == {Sc(2, FALSE, 1, 1, 1)}
-SimScn == {Sc(n, r, d, pt, gr) : n \in 1..3, r \in {FALSE}, d \in 0..2, pt \in {2, 3}, gr \in {1, 2}} \cup {Sc(2, TRUE, 0, 2, 2)}
-ThoroughScn == {Sc(n, r, d, pt, gr) : n \in 1..3, r \in {FALSE}, d \in 0..2, pt \in {3}, gr \in {2}} \cup {Sc(2, TRUE, 0, 2, 2)}
+SimScn == {sc \in {Sc(n, r, d, pt, gr) : n \in 1..3, r \in {FALSE}, d \in 0..2, pt \in {2, 3}, gr \in {1, 2}} : sc.devfail <= sc.n} \cup {Sc(2, TRUE, 0, 2, 2)}
+ThoroughScn == {sc \in {Sc(n, r, d, pt, gr) : n \in 1..3, r \in {FALSE}, d \in 0..2, pt \in {3}, gr \in {2}} : sc.devfail <= sc.n} \cup {Sc(2, TRUE, 0, 2, 2)}
 PAbsent == {"absent"}
 PStale == {"absent", "stale"}
 PAll == {"absent", "stale", "garbage"}
